@@ -43,9 +43,10 @@ type Stats struct {
 }
 
 type mutExp struct {
-	op     kvrpcpb.Op
-	value  []byte
-	action kvrpcpb.PrewriteRequest_PessimisticAction
+	op        kvrpcpb.Op
+	value     []byte
+	action    kvrpcpb.PrewriteRequest_PessimisticAction
+	assertion kvrpcpb.Assertion
 }
 
 // Expected computes, from the recorded API calls only, the mutation each key of the transaction must be
@@ -56,6 +57,7 @@ func Expected(t *sim.TxnRec) map[string]mutExp {
 	type st struct {
 		last     *sim.WriteRec
 		presumed bool
+		assert   kvrpcpb.Assertion // the assertion flag last put on the key (flags outlive later writes)
 	}
 	per := map[string]*st{}
 	var order []string
@@ -69,6 +71,14 @@ func Expected(t *sim.TxnRec) map[string]mutExp {
 		}
 		if w.Op == "insert" {
 			s.presumed = true
+		}
+		if t.AssertLevel > 0 {
+			switch w.Assert {
+			case "exist":
+				s.assert = kvrpcpb.Assertion_Exist
+			case "notexist":
+				s.assert = kvrpcpb.Assertion_NotExist
+			}
 		}
 		s.last = w
 	}
@@ -87,22 +97,20 @@ func Expected(t *sim.TxnRec) map[string]mutExp {
 			if s.presumed {
 				op = kvrpcpb.Op_Insert
 			}
-			out[k] = mutExp{op, s.last.Value, action(k)}
+			out[k] = mutExp{op, s.last.Value, action(k), s.assert}
 		case !t.Pessimistic && s.presumed:
-			out[k] = mutExp{kvrpcpb.Op_CheckNotExists, nil, kvrpcpb.PrewriteRequest_SKIP_PESSIMISTIC_CHECK}
+			out[k] = mutExp{kvrpcpb.Op_CheckNotExists, nil, kvrpcpb.PrewriteRequest_SKIP_PESSIMISTIC_CHECK, s.assert}
 		case t.Pessimistic && s.presumed: // newly inserted then deleted: only the lock is converted
 			if isLocked {
-				out[k] = mutExp{kvrpcpb.Op_Lock, nil, action(k)}
+				out[k] = mutExp{kvrpcpb.Op_Lock, nil, action(k), s.assert}
 			}
 		default:
-			out[k] = mutExp{kvrpcpb.Op_Del, nil, action(k)}
+			out[k] = mutExp{kvrpcpb.Op_Del, nil, action(k), s.assert}
 		}
 	}
-	if t.Pessimistic {
-		for k := range locked {
-			if _, written := per[k]; !written {
-				out[k] = mutExp{kvrpcpb.Op_Lock, nil, kvrpcpb.PrewriteRequest_DO_PESSIMISTIC_CHECK}
-			}
+	for k := range locked {
+		if _, written := per[k]; !written {
+			out[k] = mutExp{kvrpcpb.Op_Lock, nil, action(k), kvrpcpb.Assertion_None}
 		}
 	}
 	return out
@@ -359,6 +367,12 @@ func Check(in Input) ([]Violation, Stats) {
 					}
 					if act != want.action {
 						add("M9-action", "txn %d key %s: pessimistic action %v, expected %v (locked keys: %v)", start, k, act, want.action, keysSortedU(t.LockedKeys()))
+					}
+					if m.Assertion != want.assertion {
+						add("M9-assertion", "txn %d key %s: prewritten with assertion %v, the flags put on the key imply %v (assertion level %d)", start, k, m.Assertion, want.assertion, t.AssertLevel)
+					}
+					if wantLevel := kvrpcpb.AssertionLevel(t.AssertLevel); r.AssertionLevel != wantLevel {
+						add("M9-assertion", "txn %d: prewrite carries assertion level %v, the transaction asked for %v", start, r.AssertionLevel, wantLevel)
 					}
 				}
 			}
